@@ -174,6 +174,10 @@ func (b *Backend) guarded(fn func(res E) error) E {
 			if isConflict(err) {
 				res["conflict"] = 1
 			}
+			if isStoreLimit(err) { // the store refused the transaction as a whole (e.g. too big): no effect
+				res["conflict"] = 1
+				res["storelimit"] = 1
+			}
 			msg := err.Error()
 			if len(msg) > 200 {
 				msg = msg[:200]
